@@ -327,7 +327,7 @@ func (r *Run) Finish() {
 		for _, b := range blind {
 			fmt.Printf("INCONCLUSIVE property=%s reason=%s\n", r.Prop, b)
 		}
-		os.Exit(2)
+		os.Exit(4)
 	}
 	os.Exit(0)
 }
